@@ -149,7 +149,7 @@ func newScenarioInst(c *xs.Ctx, sc schedScenario) *scenarioInst {
 			return "nil-view"
 		}
 		var parts []string
-		for _, k := range [][]byte{{}, {0x11}, {0x11, 0x12}, {0x13}} {
+		for _, k := range [][]byte{{}, {0xff}, {0xff, 0x12}, {0x13}} {
 			v, err := shared.Get(k)
 			has, _ := shared.Has(k)
 			if err == leveldb.ErrNotFound {
@@ -160,7 +160,7 @@ func newScenarioInst(c *xs.Ctx, sc schedScenario) *scenarioInst {
 				parts = append(parts, fmt.Sprintf("%x:%x/%v", k, v, has))
 			}
 		}
-		it := shared.NewIterator([]byte{0x11})
+		it := shared.NewIterator([]byte{0xff})
 		for it.Next() {
 			if it.Value() != nil {
 				parts = append(parts, fmt.Sprintf("scan %x=%x", it.Key(), it.Value()))
@@ -171,7 +171,7 @@ func newScenarioInst(c *xs.Ctx, sc schedScenario) *scenarioInst {
 	}
 	wantShared := func() string {
 		var parts []string
-		for _, k := range [][]byte{{}, {0x11}, {0x11, 0x12}, {0x13}} {
+		for _, k := range [][]byte{{}, {0xff}, {0xff, 0x12}, {0x13}} {
 			if v, ok := oldSub[string(k)]; ok {
 				parts = append(parts, fmt.Sprintf("%x:%x/true", k, v))
 			} else {
@@ -180,7 +180,7 @@ func newScenarioInst(c *xs.Ctx, sc schedScenario) *scenarioInst {
 		}
 		var ks []string
 		for k := range oldSub {
-			if bytes.HasPrefix([]byte(k), []byte{0x11}) {
+			if bytes.HasPrefix([]byte(k), []byte{0xff}) {
 				ks = append(ks, k)
 			}
 		}
